@@ -92,6 +92,9 @@ def spec_defaults(spec):
     spec.setdefault('store', 'none')
     spec.setdefault('store_gated', False)
     spec.setdefault('store_faults', [])
+    # SwitchCase(name=...) is optional in the public API: about a third of the programs (chosen by their shape, not by a random draw,
+    # so that replays and seeds are stable) declare their switches without a name and get the engine's generated node ids
+    spec.setdefault('unnamed_switches', sum(len(nd['params']) for nd in spec['nodes']) % 3 == 0)
     return spec
 
 
@@ -295,7 +298,7 @@ def materialize(spec, rt_holder, tag=''):
                     ann[pn] = Input(classes[m[1]])
                 elif m[0] == 'sw':
                     ann[pn] = SwitchCase(switch=classes[m[1]], cases=[(l, classes[c]) for l, c in m[2]],
-                                         name='s%d_%d%s' % (i, j, tag))
+                                         name=None if spec.get('unnamed_switches') else 's%d_%d%s' % (i, j, tag))
                 elif m[0] == 'oneof':
                     ann[pn] = InputOneOf([classes[c] for c in m[1]])
                 elif m[0] == 'rec':
@@ -331,7 +334,8 @@ def node_id_maps(spec, classes, tag=''):
     for i, nd in enumerate(spec['nodes']):
         for j, (pn, m) in enumerate(nd['params']):
             if m[0] == 'sw':
-                to_key['switch__s%d_%d%s' % (i, j, tag)] = ['sw', i, j]
+                if not spec.get('unnamed_switches'):     # generated ids are identified on the built graph (runimpl.build)
+                    to_key['switch__s%d_%d%s' % (i, j, tag)] = ['sw', i, j]
             elif m[0] == 'oneof':
                 to_key['input_one_of__%d___%s' % (j, get_node_id(classes[i]))] = ['oo', i, j]
     return to_key
